@@ -556,6 +556,7 @@ func c14Body(c *fw.Ctx) {
 		}
 		sc := sc
 		scName := strings.Join(flatNames(sc), " || ")
+		c.CurCase(func() *fw.Case { return schedCase(sc, nil) })
 		// determinism self-check: the default schedule twice, identical statement traces
 		// (three runs: the first may differ from the later ones when the calls leave state behind - a cache in a
 		// package-level parser, say; whether that state is legal is for the oracles to decide, so only a difference
